@@ -686,6 +686,7 @@ impl Property for ThreadedStall {
 fn run_ingest(ctx: &Ctx, c: &IngestCase) -> Outcome {
     use lsmtk::verif;
     let mut o = Outcome::pass();
+    let mut files_broken: Option<String> = None;
     verif::set_step_mode(false);
     verif::STOP.store(false, Ordering::SeqCst);
     *PERTURB.lock().unwrap() = c.perturb.clone();
@@ -874,6 +875,23 @@ fn run_ingest(ctx: &Ctx, c: &IngestCase) -> Outcome {
             }
         }
         drop(tree);
+        // C08 at quiescence: every sst the committed manifest lists is in sst/ (a race between a
+        // compaction and an ingest that installs versions out of order retires live files), and the
+        // directory opens again
+        if let Some(listed) = crate::manifest::listed_ssts_tolerant(&root) {
+            let missing: Vec<&String> = listed.iter().filter(|d| !root.join("sst").join(format!("{d}.sst")).exists()).collect();
+            if let Some(d) = missing.first() {
+                files_broken = Some(format!("after {} threads ingested and {} compaction threads ran, the MANIFEST lists sst {d}, which is not in sst/ (trash has it: {}); {} listed, {} missing", c.ingest_threads, c.compaction_threads, root.join("trash").join(format!("{d}.sst")).exists(), listed.len(), missing.len()));
+            } else {
+                o.label("quiescent:every-listed-sst-present");
+                let opts = cfg.options(&root.to_string_lossy());
+                match vcore::guard(|| lsmtk::LsmTree::open(opts).map(|t| drop(t))) {
+                    Ok(Ok(())) => o.label("quiescent:reopens"),
+                    Ok(Err(e)) => files_broken = Some(format!("after the threads finished without an error the directory does not open again: {}", vcore::truncate(&format!("{e:?}"), 300))),
+                    Err(f) => files_broken = Some(format!("reopening after the threads finished panicked: {}", f.message)),
+                }
+            }
+        }
         let _ = std::fs::remove_dir_all(&root);
     } else {
         std::mem::forget(bg);
@@ -894,8 +912,57 @@ fn run_ingest(ctx: &Ctx, c: &IngestCase) -> Outcome {
         o.fail(if e.starts_with("harness:") { "harness:cannot-build-input" } else { "threads:op-error" }, vcore::truncate(e, 400));
     } else if let Some(e) = bg_errors.first() {
         o.fail("threads:background-error", vcore::truncate(e, 400));
+    } else if let Some(m) = files_broken {
+        // what the files look like is C08's business; under C20 it is recorded
+        if ctx.prop == "C08" {
+            o.fail("threads:listed-sst-missing-or-unopenable", m);
+        } else {
+            o.label("quiescent:files-broken(not-judged-here)");
+        }
     }
     o
+}
+
+/// The same engine under C08: several threads ingest while compaction threads merge and retire
+/// files; judged at quiescence by the files (see run_ingest).
+pub struct ThreadedFiles;
+
+impl Property for ThreadedFiles {
+    type Case = IngestCase;
+    fn name(&self) -> String {
+        "threaded-files".into()
+    }
+    fn cases(&self, tier: Tier) -> u64 {
+        tier.pick(120, 3000)
+    }
+    fn max_shrink_iters(&self) -> u32 {
+        40
+    }
+    fn record_current(&self) -> bool {
+        true
+    }
+    fn strategy(&self, ctx: &Ctx) -> BoxedStrategy<IngestCase> {
+        ThreadedStall.strategy(ctx)
+    }
+    fn run(&self, ctx: &Ctx, c: &IngestCase) -> Outcome {
+        let runs = if ctx.replay { 20 } else { 1 };
+        let mut o = Outcome::pass();
+        for _ in 0..runs {
+            o = run_ingest(ctx, c);
+            // a stall or a client error is C20's / C06's verdict, not this part's
+            if let Some(f) = &o.failure {
+                if f.signature != "threads:listed-sst-missing-or-unopenable" && !f.signature.starts_with("panic@") && f.signature != "threads:background-error" {
+                    o.failure = None;
+                    o.label("other-verdict-left-to-its-own-check");
+                }
+            }
+            if o.failed() || o.inconclusive {
+                break;
+            }
+        }
+        o.nontrivial = true;
+        o
+    }
 }
 
 ///////////////////////////////////////// C20 exact wake-ups ////////////////////////////////////////
